@@ -609,24 +609,34 @@ func runC08(c *Ctx) {
 	if emitRow != nil {
 		c08Line(c, emitRow)
 	}
-	// R08.4 dashes >= 3
-	p := c.Idx().proverFor(fn)
+	// R08.4 dashes >= 3: wherever the package builds dash runs (RenderTo itself or a helper it delegates to)
 	nd := 0
-	eachInstr(fn, func(in ssa.Instruction) {
-		if !isCallTo(in, "strings", "Repeat") {
-			return
+	builders := map[*ssa.Function]bool{}
+	for _, df := range c.ModFuncs("markdown") {
+		pd := c.Idx().proverFor(df)
+		eachInstr(df, func(in ssa.Instruction) {
+			if !isCallTo(in, "strings", "Repeat") {
+				return
+			}
+			cc := callCommon(in)
+			if s, ok := constString(cc.Args[0]); !ok || s != "-" {
+				return
+			}
+			nd++
+			builders[df] = true
+			ok, _ := pd.prove(leq(linConst(3), pd.linOf(cc.Args[1]), "at least three dashes"), in, nil, 0)
+			r.Check("R08.4", FuncName(df), fmt.Sprintf("dash run #%d has at least three dashes", nd), in.Pos(), ok, "the width is not clamped to >= 3 before repeating")
+		})
+	}
+	r.Floor("R08.4", "dash runs of the delimiter row", nd, 1)
+	target := fn
+	if len(builders) == 1 {
+		for df := range builders {
+			target = df
 		}
-		cc := callCommon(in)
-		if s, ok := constString(cc.Args[0]); !ok || s != "-" {
-			return
-		}
-		nd++
-		ok, _ := p.prove(leq(linConst(3), p.linOf(cc.Args[1]), "at least three dashes"), in, nil, 0)
-		r.Check("R08.4", FuncName(fn), fmt.Sprintf("dash run #%d has at least three dashes", nd), in.Pos(), ok, "the width is not clamped to >= 3 before repeating")
-	})
-	r.Floor("R08.4", "dash runs of the delimiter row", nd, 3)
-	c08Colons(c, fn)
-	checkEffectiveProperty(c, "R08.4", fn, "properties/align", "PropertyType")
+	}
+	c08Colons(c, target)
+	checkEffectiveProperty(c, "R08.4", target, "properties/align", "PropertyType")
 }
 
 // c08Line: pipe bookkeeping of one markdown line (shape rule).
